@@ -97,14 +97,16 @@ package environment
 //@   [C10] on call .SetRuntimeVar when arg0 == "run_end_completion_time_ms" : assert arg1 == "" || (readKey == "run_end_completion_time_ms" && readEmpty)
 //@   [C10] on call .SetRuntimeVar when arg0 == "run_end_time_ms" : assert arg1 == "" || (readKey == "run_end_time_ms" && readEmpty)
 //@   on call (*Environment).handleHooksWithPositiveWeights : assert phase == 1 ; phase = 2
-//@   on store environment.Environment.currentRunNumber : assert phase == 2 && value == 0 && isStop ; rnDropped = true
+// C10 (the run number is gone once the run is over, however the run ends): also a run that ends by GO_ERROR from RUNNING
+//@   ghostvar isErrEnd bool = e.Event == "GO_ERROR" && e.Src == "RUNNING"
+//@   on store environment.Environment.currentRunNumber : assert phase == 2 && value == 0 && (isStop || isErrEnd) ; rnDropped = true
 // C09 (a critical failure at enter_<state> is reported to the caller - also when after_<event> fails too): what is handed
 // to Cancel here includes the error the event already carries; Cancel REPLACES the event's error
 //@   ghostvar prior bool = false
 //@   [C09] on call errors.Join : prior = prior || (len(arg0) > 0 && arg0[0] == e.Err)
 //@   [C09] on call (*fsm.Event).Cancel : assert prior
 //@   ensures phase == 2
-//@   ensures isStop ==> rnDropped
+//@   ensures isStop || isErrEnd ==> rnDropped
 
 // C10 (the run number is gone once the run is over): a START_ACTIVITY whose task transition fails leaves the environment
 // without a current run number - the run that was numbered in before_START_ACTIVITY never started.
